@@ -12,7 +12,7 @@ VARIABLES l
 tvars == << vars, l >>
 
 PlanOf(c) ==
-  CASE c.fmt_plan \in {"ok", "slow"} -> "ok"
+  CASE c.fmt_plan \in {"ok", "slow", "very_slow"} -> "ok"
     [] c.fmt_plan \in {"fail_after_read", "slow_read"} -> "fail_after_read"
     [] c.fmt_plan = "fail_no_read" -> "fail_no_read"
     [] c.fmt_plan = "empty" -> "empty"
